@@ -187,8 +187,7 @@ func (x *Exec) nextOp(fr *Frame, st *State, in *ssa.Next) *Val {
 	s := it.str
 	ln := strLen(s)
 	ok := Lt(pos, ln)
-	w := UF("utf8.width", SInt, s, pos)
-	c := UF("utf8.rune", SInt, s, pos)
+	w, c := utf8At(s, pos)
 	b0 := strAt(s, pos)
 	last := UF("utf8.lastsize", SInt, s)
 	x.ctx.assume(st, Implies(ok, And(
@@ -326,3 +325,11 @@ func (x *Exec) shl(st *State, a, b *Term) *Term {
 
 var _ = fmt.Sprintf
 var _ = utf8.RuneError
+
+// utf8At: width and rune of the UTF-8 sequence starting at byte position pos of s. The functions depend
+// only on the bytes from that position to the end of the string, so substrings agree with their parents.
+func utf8At(s, pos *Term) (w, c *Term) {
+	abs := Add(strOff(s), pos)
+	rem := Sub(strLen(s), pos)
+	return UF("utf8.width", SInt, strArr(s), abs, rem), UF("utf8.rune", SInt, strArr(s), abs, rem)
+}
